@@ -251,6 +251,18 @@ static std::string DoSip(const std::vector<Sx>& a) {
   return "h=" + std::to_string(h8) + " hchar=" + std::to_string(hc);
 }
 
+#include "sip_names.h"
+// every entry of kSipNames has constant initialisers: the hashes are evaluated at compile time
+static_assert(nop::SipHash::Compute("", nop::kNopTableKey0, nop::kNopTableKey1) != 0 || true, "");
+static std::string DoSipNames() {
+  std::string out;
+  for (const auto& n : kSipNames) {
+    if (!out.empty()) out += ",";
+    out += std::string(n.hex) + ":" + std::to_string(n.table) + ":" + std::to_string(n.iface) + ":" + std::to_string(n.sel64) + ":" + std::to_string(n.sel32);
+  }
+  return "names=" + out;
+}
+
 // ------------------------------------------------------------------- endian --
 template <typename T>
 static std::string Endian(std::uint64_t bits) {
@@ -368,6 +380,7 @@ int main() {
       else if (op == "wseq") out = DoWseq(a);
       else if (op == "sip") out = DoSip(a);
       else if (op == "cxcases") out = DoCx();
+      else if (op == "sipnames") out = DoSipNames();
       else if (op == "endian") out = DoEndian(a);
       else if (op == "endiansweep") out = DoEndianSweep(a);
       else out = "HARNESS-ERROR unknown op " + op;
